@@ -460,6 +460,21 @@ pub fn run(a: &Args, out: &mut Out) {
         let prelude = format!("ROOT;{};IDX 1 0;IDX 1 1;IDX 1 2;STR 2;STR 3;{};IDX 7 0;IDX 7 1;STR 8;IDX 1 {};STR 2;STR 3;IDX 2 0;IDX 3 0;IDX 7 {};STR 8;STR 9;IDX 8 0;LEN 2;KEY 1 1;KEY 1 {}", c0, c1, far, far + 1, far + 2);
         acc.doc_with(out, &mut pool, &mut r, "mid", &doc, &keys, true, 120, &prelude);
     }
+    // huge flat containers (any pre-sizing threshold below ~10^5 elements is crossed): early handles are taken, the read
+    // front jumps to the far end of BOTH containers, the early handles are used again. Compared with the eager spec only
+    // (class `huge`: the list-based model is not run on these).
+    let huge_sizes: &[usize] = if thorough { &[20000, 40000, 70000, 140000] } else { &[20000, 40000] };
+    for (i, &n) in huge_sizes.iter().enumerate() {
+        for shape in 0..(if thorough { 3 } else { 2 }) {
+            let mut r = rng.fork(800_000 + (i * 3 + shape) as u64);
+            let tree = gen_mid_n(&mut r, shape * 5, n);
+            let doc = tree.bytes();
+            let keys: Vec<Vec<u8>> = vec![b"x".to_vec(), b"y".to_vec(), b"k0".to_vec(), b"k1".to_vec()];
+            let (c0, c1) = match &tree { Wire::Map(..) => ("PROP 0 78", "PROP 0 79"), _ => ("IDX 0 0", "IDX 0 1") };
+            let prelude = format!("ROOT;{};IDX 1 0;IDX 1 1;IDX 1 2;STR 2;STR 3;{};IDX 7 0;IDX 7 1;STR 8;IDX 1 {};STR 2;STR 3;IDX 2 0;IDX 3 0;IDX 7 {};STR 8;STR 9;IDX 8 0;LEN 2;KEY 1 1;IDX 1 1;STR 24;IDX 7 0;STR 26", c0, c1, n - 1, n - 2);
+            acc.doc_with(out, &mut pool, &mut r, "huge", &doc, &keys, true, 40, &prelude);
+        }
+    }
     acc.finish(out, "random well-formed documents (depth<=6, fan-out from {0,1,2,3,4,5,15,16,17,31,32}, every int/float/str/array/map format incl. non-minimal headers, 15% with duplicate keys) plus documents with strings of 255/256, 2^14-3..2^14+2, 65535/65536/70000 bytes and arrays/maps of 255/256 (thorough: also 2^14-3..2^14+2) elements, plus containers of 1025..4100 strings/arrays/pairs read with 120-call histories that keep using early handles; per document 20-60 read calls chosen adaptively among ALL handles obtained so far (sibling after half-descended child, revisits, by-name/by-interned-id/by-index/key-at-index/len/string bytes, out-of-range or wrong-kind scopes, 3% undecodable scope, root re-fetched); each document runs in a child process so an abort is an observation; non-trivial = some call reached a non-error value below the root; distinct = distinct (document prefix, op list)");
 }
 
